@@ -18,8 +18,10 @@ import (
 	"os"
 	"path/filepath"
 	"regexp"
+	"sort"
 	"strconv"
 	"strings"
+	"sync"
 	"time"
 
 	"github.com/magisterquis/curlrevshell/lib/sstls"
@@ -32,8 +34,11 @@ import (
 const Level = "exploration"
 
 const (
-	engBin = "binary"
-	engIn  = "inproc"
+	engBin    = "binary"
+	engIn     = "inproc"
+	engIn443  = "inproc-443"
+	engRace   = "inproc-race"
+	engBin443 = "binary-443"
 )
 
 // ---- what the program shows ---------------------------------------------------------
@@ -142,7 +147,10 @@ type judge struct {
 	ctx    map[string]any // configuration, for witnesses
 	served []string       // pins of the leaves seen in handshakes
 	bad    int            // violations recorded by this judge
+	class  string         // when set: the phase this judge works in (names key and counter instead of the site)
 }
+
+const classChanged = "cache-changed-under-listener"
 
 func (j *judge) witness(extra map[string]any) map[string]any {
 	j.bad++
@@ -159,7 +167,11 @@ func (j *judge) witness(extra map[string]any) map[string]any {
 // fp compares one advertised fingerprint with every served pin.
 func (j *judge) fp(site, fp, where string) bool {
 	ok := true
-	j.r.Count("fingerprints_compared:"+site, 1)
+	cls := site
+	if j.class != "" {
+		cls = j.class
+	}
+	j.r.Count("fingerprints_compared:"+cls, 1)
 	if !validPin(fp) {
 		ok = false
 		j.r.Violate(j.eng, j.idx, "fp-not-base64-sha256", fmt.Sprintf("%s shows a fingerprint %q that is not standard base64 of 32 bytes: %q", site, fp, where), j.witness(map[string]any{"site": site, "shown": where}))
@@ -167,31 +179,100 @@ func (j *judge) fp(site, fp, where string) bool {
 	for _, p := range j.served {
 		if fp != p {
 			ok = false
-			j.r.Violate(j.eng, j.idx, "advertised-fp-differs-from-served:"+site, fmt.Sprintf("%s advertises sha256//%s but the listener presents a key whose pin is %s: %q", site, fp, p, where), j.witness(map[string]any{"site": site, "advertised": fp, "shown": where}))
+			j.r.Violate(j.eng, j.idx, "advertised-fp-differs-from-served:"+cls, fmt.Sprintf("%s advertises sha256//%s but the listener presents a key whose pin is %s: %q", site, fp, p, where), j.witness(map[string]any{"site": site, "advertised": fp, "shown": where}))
 			break
 		}
 	}
 	return ok
 }
 
-// ports applies the port rule to printed one-liners: the bound port, unless
-// the address is one the user gave with a port.
-func (j *judge) ports(ols []oneLiner, bound string, userWithPort map[string]bool) {
+// splitAddr takes a printed or user-given address apart; the host comes back
+// in canonical form (no brackets, lower case, IP literals re-formatted).
+func splitAddr(a string) (host, port string, hasPort bool) {
+	h, p, err := net.SplitHostPort(a)
+	if err != nil || p == "" {
+		h, p = a, ""
+	}
+	h = strings.ToLower(strings.Trim(h, "[]"))
+	if ip, err := netip.ParseAddr(h); err == nil {
+		h = ip.WithZone("").String()
+	}
+	return h, p, p != ""
+}
+
+// portRule is what the statement says about ports: the port really bound,
+// unless the user supplied one for that host.
+type portRule struct {
+	bound string
+	user  map[string]map[string]bool // host -> ports the user gave for it ("" = given without a port)
+	local map[string]bool            // addresses of the listener and of this machine
+}
+
+func newPortRule(cbs []string, bound, listenAddr string) portRule {
+	pr := portRule{bound: bound, user: map[string]map[string]bool{}, local: map[string]bool{"127.0.0.1": true, "::1": true}}
+	for _, a := range cbs {
+		h, p, _ := splitAddr(a)
+		if pr.user[h] == nil {
+			pr.user[h] = map[string]bool{}
+		}
+		pr.user[h][p] = true
+	}
+	if h, _, ok := splitAddr(listenAddr); ok {
+		pr.local[h] = true
+	}
+	if as, err := net.InterfaceAddrs(); err == nil {
+		for _, a := range as {
+			if p, err := netip.ParsePrefix(a.String()); err == nil {
+				pr.local[p.Addr().WithZone("").String()] = true
+			}
+		}
+	}
+	return pr
+}
+
+// ports applies the port rule to printed one-liners.  A one-liner without a
+// port names the default https port, 443.  A host the user gave only WITH a
+// port (and that is not an address of this machine, which the program prints by
+// itself too) must keep exactly one of the user's ports; any other one-liner
+// names the bound port or a port the user gave for that host.
+func (j *judge) ports(ols []oneLiner, pr portRule) {
+	on443 := pr.bound == "443"
 	for _, ol := range ols {
 		j.r.Count("oneliners_checked", 1)
-		_, p, err := net.SplitHostPort(ol.Addr)
-		if err != nil {
-			p = "443 (none printed)"
+		h, p, printed := splitAddr(ol.Addr)
+		shown := p
+		if !printed {
+			p, shown = "443", "443, none printed"
 		}
-		if p == bound {
-			j.r.Count("oneliner_port_is_bound_port", 1)
-			continue
-		}
-		if userWithPort[ol.Addr] {
+		ups := pr.user[h]
+		strict := len(ups) > 0 && !ups[""] && !pr.local[h]
+		switch {
+		case strict && ups[p], !strict && p != pr.bound && ups[p]:
 			j.r.Count("oneliner_port_is_users_port", 1)
-			continue
+			if on443 {
+				j.r.Count("oneliners_with_user_port_on_443_listener", 1)
+				if p != "443" {
+					j.r.Count("oneliners_with_user_port_other_than_443_on_443_listener", 1)
+				}
+			}
+		case strict:
+			var want []string
+			for u := range ups {
+				want = append(want, u)
+			}
+			sort.Strings(want)
+			j.r.Violate(j.eng, j.idx, "oneliner-user-port-not-kept", fmt.Sprintf("%s names %s (port %s) but the user gave that host with port %s; the listener is bound to port %s: %q", ol.Site, ol.Addr, shown, strings.Join(want, " / "), pr.bound, ol.Text), j.witness(map[string]any{"oneliner": ol, "bound_port": pr.bound, "user_ports_for_host": want}))
+		case p == pr.bound:
+			j.r.Count("oneliner_port_is_bound_port", 1)
+			if on443 {
+				j.r.Count("oneliners_naming_bound_port_on_443_listener", 1)
+				if !printed {
+					j.r.Count("oneliners_with_implied_https_port_on_443_listener", 1)
+				}
+			}
+		default:
+			j.r.Violate(j.eng, j.idx, "oneliner-port-not-bound-port", fmt.Sprintf("%s names %s (port %s) but the listener is bound to port %s and the user gave no port for that address: %q", ol.Site, ol.Addr, shown, pr.bound, ol.Text), j.witness(map[string]any{"oneliner": ol, "bound_port": pr.bound}))
 		}
-		j.r.Violate(j.eng, j.idx, "oneliner-port-not-bound-port", fmt.Sprintf("%s names %s (port %s) but the listener is bound to port %s and the user gave no port for that address: %q", ol.Site, ol.Addr, p, bound, ol.Text), j.witness(map[string]any{"oneliner": ol, "bound_port": bound}))
 	}
 }
 
@@ -249,16 +330,6 @@ func cbAddrs(form string, rng *rand.Rand) []string {
 	return nil
 }
 
-func userWithPort(cbs []string) map[string]bool {
-	m := map[string]bool{}
-	for _, a := range cbs {
-		if _, p, err := net.SplitHostPort(a); err == nil && p != "" {
-			m[a] = true
-		}
-	}
-	return m
-}
-
 // freePort picks a port outside the ephemeral range that is free right now.
 func freePort(rng *rand.Rand, host string) string {
 	for k := 0; k < 50; k++ {
@@ -297,6 +368,72 @@ func listenArg(form string, rng *rand.Rand) string {
 		return "[::1]:" + freePort(rng, "::1")
 	}
 	return "127.0.0.1:0"
+}
+
+// ---- port 443 ---------------------------------------------------------------------------
+
+// form443 binds the default https port.  The port is a machine-wide resource:
+// inside one run its use is serialised by mu443 (held from the bind to the
+// end of the listener); against other processes there are several loopback
+// addresses to fall back on, and a bounded wait.
+const form443 = "port-443"
+
+var mu443 sync.Mutex
+
+var cands443 = []string{"127.0.0.1:443", "127.0.0.2:443", "127.0.0.3:443", "[::1]:443"}
+
+// rounds443: how many times all candidates are tried (250 ms apart) before a
+// case gives up.  After two cases in a row gave up, the port is taken to be
+// held for good and the following cases ask once only (guarded by mu443).
+func rounds443() int {
+	if gaveUp443 >= 2 {
+		return 1
+	}
+	return 20
+}
+
+var gaveUp443 int
+
+func got443(r *mon.Run, addr string) {
+	gaveUp443 = 0
+	r.Count("listeners_on_port_443", 1)
+	r.Count("listeners_on_port_443:"+addr, 1)
+}
+
+// cand443 is the address to try in attempt try (rotation rot): all candidates
+// in turn, round after round.
+func cand443(rot, try int) string { return cands443[(rot+try)%len(cands443)] }
+
+// busy443: the bind failed for a reason that is not the program's doing
+// (another process has the address, the address family is not available).
+func busy443(err error) bool {
+	e := err.Error()
+	return strings.Contains(e, "address already in use") || strings.Contains(e, "cannot assign requested address") || strings.Contains(e, "address family not supported")
+}
+
+func denied443(err error) bool {
+	return strings.Contains(err.Error(), "permission denied")
+}
+
+// unavailable443 records that no listener could be bound to port 443: counted
+// and noted, never a violation.
+func unavailable443(r *mon.Run, who string, err error) {
+	gaveUp443++
+	r.Count("port_443_unavailable", 1)
+	r.Inconclusive(fmt.Sprintf("%s: port 443 could not be bound on any of %v (%v): case skipped", who, cands443, err))
+}
+
+// the callback addresses of the port-443 cases: explicit ports 8888, 8443, 444
+// (and 443 itself), and addresses without a port.
+var cb443Pool = [][]string{
+	{"kittens.com:8888", "moose.com"},
+	{"cb.example:8443"},
+	{"r.example:444", "10.9.8.7:8888", "plain.example"},
+	{"[2001:db8::5]:8443", "x-y.example"},
+	{"cb.example"},
+	nil,
+	{"cb.example:443", "alt.example:8888"},
+	{"kittens.com:8888"},
 }
 
 // fixtures shared by all cases.
@@ -538,8 +675,17 @@ func (j *judge) curlChecks(work string, ols []oneLiner, mainHost, bound string, 
 
 // ---- /c ------------------------------------------------------------------------------------
 
+// sniVariants: the script variants "plain request to the listener" and
+// "HTTP/1.0 request on a connection with SNI".
+var sniVariants = []int{0, 4}
+
 // scripts fetches /c with several Host/c2 variants and judges every body.
 func (j *judge) scripts(target, boundHostPort string, custom bool, rng *rand.Rand, n int) {
+	j.scriptsPick(target, boundHostPort, custom, rng, n, nil)
+}
+
+// scriptsPick is scripts with the variants named (nil = draw n of them).
+func (j *judge) scriptsPick(target, boundHostPort string, custom bool, rng *rand.Rand, n int, pick []int) {
 	type variant struct {
 		name, host, path string
 		hdr              []string
@@ -551,9 +697,11 @@ func (j *judge) scripts(target, boundHostPort string, custom bool, rng *rand.Ran
 		{"c2-header", "h.example", "/c", []string{"c2: hdr.example:7443"}},
 		{"http/1.0-sni", "", "/c", nil},
 	}
-	pick := []int{0}
-	for _, i := range rng.Perm(len(vs) - 1)[:n-1] {
-		pick = append(pick, i+1)
+	if pick == nil {
+		pick = []int{0}
+		for _, i := range rng.Perm(len(vs) - 1)[:n-1] {
+			pick = append(pick, i+1)
+		}
 	}
 	for _, i := range pick {
 		v := vs[i]
@@ -577,6 +725,69 @@ func (j *judge) scripts(target, boundHostPort string, custom bool, rng *rand.Ran
 	}
 }
 
+// ---- the cache changes under a running listener ----------------------------------------
+
+// afterCacheChange replaces the certificate cache file under the running
+// listener by a different, valid cache (what another program sharing the cache
+// does when it makes its own certificate) and then holds everything the
+// process has advertised so far, and what it embeds in scripts now, against
+// the key it presents now - to clients without and with SNI.  The listener may
+// keep its key or pick up the new one; what it advertises must be what it
+// serves.
+func (j *judge) afterCacheChange(cache string, hosts []string, bound, target string, advertised []fpOcc, custom bool, rng *rand.Rand, more func(j2 *judge)) (newPin string, ok bool) {
+	newPin, err := writeCache(cache, "valid")
+	if err != nil {
+		j.r.Inconclusive(fmt.Sprintf("%s %d: cannot replace the cache %s: %v", j.eng, j.idx, cache, err))
+		return "", false
+	}
+	j2 := &judge{r: j.r, eng: j.eng, idx: j.idx, class: classChanged, ctx: map[string]any{}}
+	for k, v := range j.ctx {
+		j2.ctx[k] = v
+	}
+	j2.ctx["phase"] = "the cache file was replaced by a different valid certificate and key while the listener was running"
+	j2.ctx["cache_file"] = cache
+	j2.ctx["cache_now_holds_pin"] = newPin
+	j2.ctx["served_before_the_change"] = append([]string(nil), j.served...)
+	plain, withSNI := 0, 0
+	for _, h := range hosts {
+		if _, err := j2.handshake(net.JoinHostPort(h, bound), ""); err == nil {
+			plain++
+		}
+	}
+	for _, sni := range []string{"some.host.example", "cb.example"} {
+		if _, err := j2.handshake(target, sni); err == nil {
+			withSNI++
+		} else {
+			j.r.Logf("%s %d: handshake with SNI %s after the cache change: %v", j.eng, j.idx, sni, err)
+		}
+	}
+	if plain == 0 || withSNI == 0 {
+		j.r.Inconclusive(fmt.Sprintf("%s %d: after the cache change %d handshakes without and %d with SNI succeeded", j.eng, j.idx, plain, withSNI))
+		return newPin, false
+	}
+	j.r.Count("cache_changed_under_listener_cases", 1)
+	j.r.Count("handshakes_without_sni_after_change", int64(plain))
+	j.r.Count("handshakes_with_sni_after_change", int64(withSNI))
+	for _, f := range advertised {
+		j2.fp(f.Site, f.FP, strings.TrimSpace(f.Line))
+	}
+	j2.scriptsPick(target, target, custom, rng, 2, sniVariants)
+	if more != nil {
+		more(j2)
+	}
+	switch {
+	case len(j2.served) == 1 && j2.served[0] == newPin:
+		j.r.Count("after_change_listener_serves_new_key", 1)
+	case len(j2.served) == 1 && len(j.served) > 0 && j2.served[0] == j.served[0]:
+		j.r.Count("after_change_listener_keeps_its_key", 1)
+	default:
+		j.r.Count("after_change_listener_serves_several_keys", 1)
+	}
+	j.bad += j2.bad
+	j.r.Sample(j.eng+":"+classChanged, map[string]any{"index": j.idx, "context": j2.ctx, "served_after_the_change": j2.served, "advertised": len(advertised)})
+	return newPin, true
+}
+
 // ---- engine "binary" ---------------------------------------------------------------------
 
 type binCase struct {
@@ -592,6 +803,18 @@ type binCase struct {
 	Shells  int      `json:"shell_cycles"`
 	Scripts int      `json:"script_fetches"`
 	Real    bool     `json:"real_shell"` // also run a printed one-liner verbatim under /bin/sh
+	Rot     int      `json:"port_443_rotation,omitempty"`
+}
+
+// genBin443Case: the real binary on the default https port.
+func genBin443Case(r *mon.Run, i int) binCase {
+	rng := r.Rng("bin443cfg", i)
+	return binCase{
+		Cache: []string{"fresh", "off", "default-path"}[i%3], Runs: 1, Forms: []string{form443},
+		CBForm: "port-443-pool", CBs: cb443Pool[(i*2)%len(cb443Pool)+(i*2/len(cb443Pool))%2],
+		FDir: []string{"dir", "file"}[i%2], IPv6: rng.IntN(2) == 0, Tmpl: []string{"default", "custom"}[(i/2)%2],
+		Shells: 1, Scripts: 2, Real: i%2 == 0, Rot: i % len(cands443),
+	}
 }
 
 func genBinCase(r *mon.Run, i int, offF, offC int) binCase {
@@ -625,21 +848,35 @@ func genBinCase(r *mon.Run, i int, offF, offC int) binCase {
 	return c
 }
 
+// binCacheFile: where the binary keeps its certificate cache in this case ("" = nowhere).
+func binCacheFile(c binCase, home, cachePath string) string {
+	switch c.Cache {
+	case "off":
+		return ""
+	case "default-path":
+		return filepath.Join(home, ".cache", sstls.CertCacheDir, sstls.CertCacheFile)
+	}
+	return cachePath
+}
+
 type runOutcome struct {
 	ok         bool
 	pin        string
 	advertised string
 }
 
-func binCaseRun(r *mon.Run, bin string, fx fixtures, i int, c binCase) {
+func binCaseRun(r *mon.Run, eng, bin string, fx fixtures, i int, c binCase) {
 	caseDir := filepath.Join(r.Work, fmt.Sprintf("b%d", i))
+	if eng != engBin {
+		caseDir = filepath.Join(r.Work, fmt.Sprintf("%s-%d", eng, i))
+	}
 	home := filepath.Join(caseDir, "home")
 	os.MkdirAll(home, 0o755)
 	cachePath := filepath.Join(caseDir, "cache", "cert.txtar")
 	var outs []runOutcome
 	for k := 0; k < c.Runs; k++ {
 		light := c.Cache == "existing" && k == 0
-		o := binOneRun(r, bin, fx, i, k, c, home, cachePath, light)
+		o := binOneRun(r, eng, bin, fx, i, k, c, home, cachePath, light, k == c.Runs-1)
 		if !o.ok {
 			break
 		}
@@ -651,20 +888,31 @@ func binCaseRun(r *mon.Run, bin string, fx fixtures, i int, c binCase) {
 		for k := 1; k < len(outs); k++ {
 			r.Count("restarts_compared", 1)
 			if outs[k].pin != outs[0].pin || outs[k].advertised != outs[0].advertised {
-				r.Violate(engBin, i, "restart-pin-changed-with-cache", fmt.Sprintf("run %d on the same certificate cache serves pin %s and advertises %s; run 0 served %s and advertised %s", k, outs[k].pin, outs[k].advertised, outs[0].pin, outs[0].advertised), map[string]any{"config": c, "cache": cachePath})
+				r.Violate(eng, i, "restart-pin-changed-with-cache", fmt.Sprintf("run %d on the same certificate cache serves pin %s and advertises %s; run 0 served %s and advertised %s", k, outs[k].pin, outs[k].advertised, outs[0].pin, outs[0].advertised), map[string]any{"config": c, "cache": cachePath})
 			}
 		}
 	}
 }
 
-func binOneRun(r *mon.Run, bin string, fx fixtures, i, k int, c binCase, home, cachePath string, light bool) (out runOutcome) {
+func binOneRun(r *mon.Run, eng, bin string, fx fixtures, i, k int, c binCase, home, cachePath string, light, last bool) (out runOutcome) {
 	rng := r.Rng("run", i*16+k)
+	if eng != engBin {
+		rng = r.Rng(eng+"run", i*16+k)
+	}
 	form := c.Forms[k]
 	var s *crs.Session
 	var args []string
 	var la string
+	if form == form443 {
+		// released after the child is gone (deferred before s.Close)
+		mu443.Lock()
+		defer mu443.Unlock()
+	}
 	for try := 0; ; try++ {
 		la = listenArg(form, rng)
+		if form == form443 {
+			la = cand443(c.Rot, try)
+		}
 		args = []string{"-listen-address", la}
 		for _, a := range c.CBs {
 			args = append(args, "-callback-address", a)
@@ -689,9 +937,29 @@ func binOneRun(r *mon.Run, bin string, fx fixtures, i, k int, c binCase, home, c
 			args = append(args, "-tls-certificate-cache", cachePath)
 		}
 		var err error
-		s, err = crs.Start(bin, home, args...)
+		if form == form443 {
+			// asked first by the harness itself: a child whose bind fails is only noticed late
+			var l net.Listener
+			if l, err = net.Listen("tcp", la); err == nil {
+				l.Close()
+			}
+		}
+		if err == nil {
+			s, err = crs.Start(bin, home, args...)
+		}
 		if err == nil {
 			break
+		}
+		if form == form443 && (busy443(err) || denied443(err)) {
+			if denied443(err) || try+1 >= rounds443()*len(cands443) {
+				unavailable443(r, fmt.Sprintf("%s %d run %d", eng, i, k), err)
+				return
+			}
+			r.Count("port_443_address_busy_or_missing", 1)
+			if (try+1)%len(cands443) == 0 {
+				time.Sleep(250 * time.Millisecond)
+			}
+			continue
 		}
 		if strings.Contains(err.Error(), "address already in use") && try < 4 {
 			r.Count("fixed_port_taken_retry", 1)
@@ -708,13 +976,17 @@ func binOneRun(r *mon.Run, bin string, fx fixtures, i, k int, c binCase, home, c
 	}
 	defer s.Close()
 	r.Count("binary_runs", 1)
+	if form == form443 {
+		got443(r, la)
+		r.Count("binary_listeners_on_port_443", 1)
+	}
 	r.Count("config_listen_form:"+form, 1)
 	r.Count("config_cache:"+c.Cache, 1)
 	r.Count("config_callback:"+c.CBForm, 1)
 	r.Count("config_files:"+c.FDir, 1)
 	r.Count("config_template:"+c.Tmpl, 1)
 
-	j := &judge{r: r, eng: engBin, idx: i, ctx: map[string]any{"config": c, "run": k, "args": args, "listening_on": s.Addr}}
+	j := &judge{r: r, eng: eng, idx: i, ctx: map[string]any{"config": c, "run": k, "args": args, "listening_on": s.Addr}}
 	term := func() string { return s.P.Clean() }
 	waitBlock := func(from int) (int, bool) {
 		loc, ok := s.Wait(`To get a shell:`, from, crs.Bound)
@@ -828,8 +1100,8 @@ func binOneRun(r *mon.Run, bin string, fx fixtures, i, k int, c binCase, home, c
 		j.fp(f.Site, f.FP, strings.TrimSpace(f.Line))
 	}
 	out.advertised = sh.FPs[0].FP
-	j.ports(sh.OneLiners, bound, userWithPort(c.CBs))
-	r.Distinct(fmt.Sprintf("%s|%s|%v|%s|%v|%s|%s|%s", engBin, form, c.CBs, c.FDir, c.IPv6, c.Tmpl, c.Cache, out.pin))
+	j.ports(sh.OneLiners, newPortRule(c.CBs, bound, s.Addr))
+	r.Distinct(fmt.Sprintf("%s|%s|%v|%s|%v|%s|%s|%s", eng, form, c.CBs, c.FDir, c.IPv6, c.Tmpl, c.Cache, out.pin))
 
 	var curls []map[string]any
 	if !light {
@@ -911,6 +1183,51 @@ func binOneRun(r *mon.Run, bin string, fx fixtures, i, k int, c binCase, home, c
 		j.fp(siteOther, f.FP, strings.TrimSpace(f.Line))
 	}
 
+	// The cache changes under the running listener (last run on this cache only: the runs of a
+	// restart sequence before it must find the cache as the program left it).
+	if cf := binCacheFile(c, home, cachePath); last && !light && cf != "" {
+		if _, err := os.Stat(cf); err != nil {
+			r.Count("cache_file_not_where_expected", 1)
+			r.Logf("%s %d run %d: no cache file at %s: %v", eng, i, k, cf, err)
+		} else {
+			all := parseOperatorText(term(), 0).FPs
+			from := s.P.CleanLen()
+			j.afterCacheChange(cf, hosts, bound, target, all, c.Tmpl == "custom", rng, func(j2 *judge) {
+				// real curl, run as printed, on a one-liner that names a host (curl sends SNI for names only)
+				for _, ol := range sh.OneLiners {
+					h, p, printed := splitAddr(ol.Addr)
+					if _, err := netip.ParseAddr(h); err == nil {
+						continue
+					}
+					if !printed {
+						p = "443"
+					}
+					var res curlResult
+					for try := 0; try < 3; try++ {
+						res = curlFor(r.Work, ol, "", fmt.Sprintf("%s:%s:%s:%s", bracket(h), p, bracket(mainHost), bound))
+						if res.Exit == 0 || res.Exit == 90 {
+							break
+						}
+						time.Sleep(300 * time.Millisecond)
+					}
+					switch {
+					case res.Exit == 0:
+						r.Count("curl_by_name_pinned_ok_after_change", 1)
+					case tlsLevel(res.Exit):
+						j2.r.Violate(eng, i, "advertised-fp-differs-from-served:"+classChanged, fmt.Sprintf("after the cache file changed, real curl run as printed (%s; it connects by name, so with SNI) exits %d: %s", ol.Text, res.Exit, res.Stderr), j2.witness(map[string]any{"oneliner": ol, "curl": res}))
+					default:
+						r.Inconclusive(fmt.Sprintf("curl on %q after the cache change could not reach the listener (exit %d, %s)", ol.Text, res.Exit, res.Stderr))
+					}
+					break
+				}
+				// notices about the requests of this phase
+				for _, f := range parseOperatorText(term()[from:], 0).FPs {
+					j2.fp(siteOther, f.FP, strings.TrimSpace(f.Line))
+				}
+			})
+		}
+	}
+
 	st, sig, ok := s.Quit()
 	if !ok || st != 0 || sig != "" {
 		r.Inconclusive(fmt.Sprintf("binary %d run %d: Ctrl+D ended with status %d signal %q exited=%v", i, k, st, sig, ok))
@@ -927,39 +1244,114 @@ func binOneRun(r *mon.Run, bin string, fx fixtures, i, k int, c binCase, home, c
 // ---- engine "inproc" ------------------------------------------------------------------------
 
 type inCase struct {
-	Form   string   `json:"listen_form"`
-	CBs    []string `json:"callback_addresses"`
-	FDir   string   `json:"serve_files_from"`
-	IPv6   bool     `json:"ipv6_one_liners"`
-	Tmpl   string   `json:"template"`
-	Cache  string   `json:"cache"` // off | file
-	Starts int      `json:"starts"`
-	Shell  bool     `json:"shell_cycle"`
+	Form     string   `json:"listen_form"`
+	CBs      []string `json:"callback_addresses"`
+	FDir     string   `json:"serve_files_from"`
+	IPv6     bool     `json:"ipv6_one_liners"`
+	Tmpl     string   `json:"template"`
+	Cache    string   `json:"cache"` // off | file | expired-file | notyet-file | shared-empty
+	Starts   int      `json:"starts"`
+	Shell    bool     `json:"shell_cycle"`
+	ChangeAt int      `json:"cache_replaced_during_start"` // -1: never
+	Rot      int      `json:"port_443_rotation,omitempty"`
 }
 
 func genInCase(r *mon.Run, i int) inCase {
 	rng := r.Rng("incfg", i)
 	c := inCase{
-		Form:   inprocForms[i%len(inprocForms)],
-		CBs:    cbAddrs(cbForms[rng.IntN(len(cbForms))], rng),
-		FDir:   fdirForms[rng.IntN(len(fdirForms))],
-		IPv6:   rng.IntN(2) == 0,
-		Tmpl:   []string{"default", "default", "custom"}[rng.IntN(3)],
-		Cache:  []string{"off", "off", "file", "expired-file", "file", "notyet-file"}[(i/len(inprocForms))%6],
-		Starts: 1,
-		Shell:  rng.IntN(3) == 0,
+		Form:     inprocForms[i%len(inprocForms)],
+		CBs:      cbAddrs(cbForms[rng.IntN(len(cbForms))], rng),
+		FDir:     fdirForms[rng.IntN(len(fdirForms))],
+		IPv6:     rng.IntN(2) == 0,
+		Tmpl:     []string{"default", "default", "custom"}[rng.IntN(3)],
+		Cache:    []string{"off", "off", "file", "expired-file", "file", "notyet-file"}[(i/len(inprocForms))%6],
+		Starts:   1,
+		Shell:    rng.IntN(3) == 0,
+		ChangeAt: -1,
 	}
 	if c.Cache != "off" {
 		c.Starts = 2 + rng.IntN(2)
+		c.ChangeAt = rng.IntN(c.Starts)
 	}
 	return c
 }
 
-func inCaseRun(r *mon.Run, fx fixtures, i int, c inCase) {
-	rng := r.Rng("inrun", i)
+// gen443Case: the listener on the default https port x callback addresses with
+// explicit ports and without (cb443Pool, in turn) x files x cache.
+func gen443Case(r *mon.Run, i int) inCase {
+	rng := r.Rng("in443cfg", i)
+	c := inCase{
+		Form:     form443,
+		CBs:      cb443Pool[i%len(cb443Pool)],
+		FDir:     []string{"dir", "file", "off"}[i%3],
+		IPv6:     rng.IntN(2) == 0,
+		Tmpl:     []string{"default", "default", "custom"}[rng.IntN(3)],
+		Cache:    []string{"off", "file"}[(i/2)%2],
+		Starts:   1,
+		Shell:    rng.IntN(3) == 0,
+		ChangeAt: -1,
+		Rot:      i % len(cands443),
+	}
+	if c.Cache != "off" {
+		c.Starts = 2
+		c.ChangeAt = rng.IntN(c.Starts)
+	}
+	return c
+}
+
+// inStart starts the in-process server of one start of a case.  For the
+// port-443 form the caller holds mu443.
+func inStart(r *mon.Run, eng string, i int, c inCase, cache string, fx fixtures, rng *rand.Rand) (*hk.Server, bool) {
+	cfg := hk.Config{FDir: fx.fdir(c.FDir), CertFile: cache, CBAddrs: c.CBs, PrintIPv6: c.IPv6}
+	if c.Tmpl == "custom" {
+		cfg.TmplF = fx.custom
+	}
+	if c.Form != form443 {
+		cfg.Addr = listenArg(c.Form, rng)
+		s, err := hk.Start(cfg)
+		if err != nil {
+			r.Count("config_rejected_by_program:"+c.Form, 1)
+			r.Logf("%s %d: %+v refused: %v", eng, i, cfg, err)
+			return nil, false
+		}
+		return s, true
+	}
+	var last error
+	for try := 0; try < rounds443()*len(cands443); try++ {
+		cfg.Addr = cand443(c.Rot, try)
+		s, err := hk.Start(cfg)
+		if err == nil {
+			got443(r, cfg.Addr)
+			return s, true
+		}
+		last = err
+		switch {
+		case denied443(err):
+			unavailable443(r, fmt.Sprintf("%s %d", eng, i), err)
+			return nil, false
+		case busy443(err):
+			r.Count("port_443_address_busy_or_missing", 1)
+			if (try+1)%len(cands443) == 0 {
+				time.Sleep(250 * time.Millisecond)
+			}
+		default:
+			r.Count("config_rejected_by_program:"+c.Form, 1)
+			r.Logf("%s %d: %+v refused: %v", eng, i, cfg, err)
+			return nil, false
+		}
+	}
+	unavailable443(r, fmt.Sprintf("%s %d", eng, i), last)
+	return nil, false
+}
+
+func inCaseRun(r *mon.Run, eng string, fx fixtures, i int, c inCase) {
+	rng := r.Rng(eng+"run", i)
+	if eng == engIn {
+		rng = r.Rng("inrun", i)
+	}
 	cache := ""
 	if c.Cache != "off" {
-		cache = filepath.Join(r.Work, fmt.Sprintf("in%d", i), "cert.txtar")
+		cache = filepath.Join(r.Work, fmt.Sprintf("%s-%d", eng, i), "cert.txtar")
 	}
 	cachedPin := ""
 	if c.Cache == "expired-file" || c.Cache == "notyet-file" {
@@ -972,38 +1364,61 @@ func inCaseRun(r *mon.Run, fx fixtures, i int, c inCase) {
 		}
 		r.Count("dated_cache_files:"+c.Cache, 1)
 	}
-	var pins, advs []string
-	for k := 0; k < c.Starts; k++ {
-		cfg := hk.Config{Addr: listenArg(c.Form, rng), FDir: fx.fdir(c.FDir), CertFile: cache, CBAddrs: c.CBs, PrintIPv6: c.IPv6}
-		if c.Tmpl == "custom" {
-			cfg.TmplF = fx.custom
+	// expect: the key the cache holds as far as the harness knows (written by the harness, or
+	// served by the first start); every start must serve and advertise it
+	expect, expectWhy := cachedPin, "the harness wrote the cache (certificate "+c.Cache+")"
+	oneStart := func(k int) bool {
+		if c.Form == form443 {
+			mu443.Lock()
+			defer mu443.Unlock()
 		}
-		s, err := hk.Start(cfg)
-		if err != nil {
-			r.Count("config_rejected_by_program:"+c.Form, 1)
-			r.Logf("inproc %d: %+v refused: %v", i, cfg, err)
-			return
-		}
-		pin, adv, ok := inOne(r, s, i, k, c, rng)
-		s.Stop()
+		s, ok := inStart(r, eng, i, c, cache, fx, rng)
 		if !ok {
+			return false
+		}
+		defer s.Stop()
+		pin, adv, replaced, ok := inOne(r, eng, s, i, k, c, cache, rng)
+		if !ok {
+			return false
+		}
+		r.Eval(1) // every start is one evaluated case
+		if k > 0 {
+			r.Count("restarts_compared", 1)
+		}
+		if expect != "" && (pin != expect || adv != expect) {
+			key := "restart-pin-changed-with-cache"
+			switch {
+			case strings.HasPrefix(expectWhy, "the harness wrote"):
+				key = "advertised-fp-differs-from-served:dated-cache"
+			case strings.HasPrefix(expectWhy, "the cache was replaced"):
+				key = "restart-does-not-serve-replaced-cache"
+			}
+			r.Violate(eng, i, key, fmt.Sprintf("start %d serves pin %s and advertises %s, but the certificate cache holds the key with pin %s (%s)", k, pin, adv, expect, expectWhy), map[string]any{"config": c, "start": k})
+		}
+		if cache != "" {
+			expect, expectWhy = pin, fmt.Sprintf("start %d served that key on this cache", k)
+		}
+		if replaced != "" {
+			expect, expectWhy = replaced, fmt.Sprintf("the cache was replaced by the harness while start %d was running", k)
+			r.Count("restarts_after_cache_replacement", int64(b2i(k+1 < c.Starts)))
+		}
+		return true
+	}
+	for k := 0; k < c.Starts; k++ {
+		if !oneStart(k) {
 			return
 		}
-		pins, advs = append(pins, pin), append(advs, adv)
-		r.Eval(1) // every start is one evaluated case
-	}
-	if cachedPin != "" && len(pins) > 0 && (pins[0] != cachedPin || advs[0] != cachedPin) {
-		r.Violate(engIn, i, "advertised-fp-differs-from-served:dated-cache", fmt.Sprintf("the certificate cache holds the key with pin %s (certificate %s) but the start serves %s and advertises %s", cachedPin, c.Cache, pins[0], advs[0]), map[string]any{"config": c})
 	}
 	if c.Starts >= 2 {
 		r.Count("restart_sequences", 1)
-		for k := 1; k < c.Starts; k++ {
-			r.Count("restarts_compared", 1)
-			if pins[k] != pins[0] || advs[k] != advs[0] {
-				r.Violate(engIn, i, "restart-pin-changed-with-cache", fmt.Sprintf("start %d on the same certificate cache serves pin %s and advertises %s; start 0 served %s and advertised %s", k, pins[k], advs[k], pins[0], advs[0]), map[string]any{"config": c})
-			}
-		}
 	}
+}
+
+func b2i(b bool) int {
+	if b {
+		return 1
+	}
+	return 0
 }
 
 func opText(s *hk.Server, from int) string {
@@ -1015,22 +1430,29 @@ func opText(s *hk.Server, from int) string {
 	return sb.String()
 }
 
-func inOne(r *mon.Run, s *hk.Server, i, k int, c inCase, rng *rand.Rand) (pin, adv string, ok bool) {
+// inOne judges one running in-process server.  replaced: the pin of the key
+// the cache was replaced with during this start ("" = not replaced).
+func inOne(r *mon.Run, eng string, s *hk.Server, i, k int, c inCase, cache string, rng *rand.Rand) (pin, adv, replaced string, ok bool) {
 	r.Count("inproc_servers", 1)
 	r.Count("config_listen_form:"+c.Form, 1)
-	j := &judge{r: r, eng: engIn, idx: i, ctx: map[string]any{"config": c, "start": k, "listening_on": s.Addr}}
+	j := &judge{r: r, eng: eng, idx: i, ctx: map[string]any{"config": c, "start": k, "listening_on": s.Addr}}
+	if c.Cache == "shared-empty" {
+		// two listeners started together on one empty cache: whatever one of them advertises
+		// that it does not serve is there because the other one changed the cache under it
+		j.class = classChanged
+	}
 	isHelp := func(e bk.Event) bool { return e.Kind == "op" && strings.Contains(e.S, "/c | /bin/sh") }
 	isHead := func(e bk.Event) bool { return e.Kind == "op" && strings.Contains(e.S, "To get a shell:") }
 	hd, ok1 := s.Log.Wait(0, hk.Bound, isHead)
 	_, ok2 := s.Log.Wait(hd.Seq, hk.Bound, isHelp)
 	if !ok1 || !ok2 {
-		r.Inconclusive(fmt.Sprintf("inproc %d: start-up help did not appear", i))
+		r.Inconclusive(fmt.Sprintf("%s %d: start-up help did not appear", eng, i))
 		return
 	}
 	_, bound, _ := net.SplitHostPort(s.Addr)
 	hosts, _, err := dialTargets(s.Addr, bound)
 	if err != nil {
-		r.Inconclusive(fmt.Sprintf("inproc %d: cannot use address %q: %v", i, s.Addr, err))
+		r.Inconclusive(fmt.Sprintf("%s %d: cannot use address %q: %v", eng, i, s.Addr, err))
 		return
 	}
 	mainHost := ""
@@ -1040,10 +1462,16 @@ func inOne(r *mon.Run, s *hk.Server, i, k int, c inCase, rng *rand.Rand) (pin, a
 		}
 	}
 	if mainHost == "" {
-		r.Inconclusive(fmt.Sprintf("inproc %d: no handshake with the listener at %s", i, s.Addr))
+		r.Inconclusive(fmt.Sprintf("%s %d: no handshake with the listener at %s", eng, i, s.Addr))
 		return
 	}
 	target := net.JoinHostPort(mainHost, bound)
+	// a client that connects by name (SNI) must be shown the same key
+	if _, err := j.handshake(target, "some.host.example"); err == nil {
+		r.Count("handshakes_with_sni_at_start", 1)
+	} else {
+		r.Inconclusive(fmt.Sprintf("%s %d: handshake with SNI failed: %v", eng, i, err))
+	}
 	shells := 0
 	if c.Shell {
 		id := fmt.Sprintf("c05y%x", rng.Uint32())
@@ -1051,7 +1479,7 @@ func inOne(r *mon.Run, s *hk.Server, i, k int, c inCase, rng *rand.Rand) (pin, a
 		in, err1 := crs.OpenIn(target, "/i/"+id)
 		o, err2 := crs.OpenOut(target, "/o/"+id)
 		if err1 != nil || err2 != nil {
-			r.Inconclusive(fmt.Sprintf("inproc %d: fake shell could not connect: %v %v", i, err1, err2))
+			r.Inconclusive(fmt.Sprintf("%s %d: fake shell could not connect: %v %v", eng, i, err1, err2))
 			return
 		}
 		_, okr := s.Log.Wait(from, hk.Bound, func(e bk.Event) bool { return e.Kind == "op" && strings.Contains(e.S, "Shell is ready") })
@@ -1059,60 +1487,166 @@ func inOne(r *mon.Run, s *hk.Server, i, k int, c inCase, rng *rand.Rand) (pin, a
 		o.Close()
 		g, okg := s.Log.Wait(from, hk.Bound, func(e bk.Event) bool { return e.Kind == "op" && strings.Contains(e.S, "Shell is gone") })
 		if !okr || !okg {
-			r.Inconclusive(fmt.Sprintf("inproc %d: shell cycle did not complete", i))
+			r.Inconclusive(fmt.Sprintf("%s %d: shell cycle did not complete", eng, i))
 			return
 		}
 		hd, ok1 := s.Log.Wait(g.Seq, hk.Bound, isHead)
 		_, ok2 := s.Log.Wait(hd.Seq, hk.Bound, isHelp)
 		if !ok1 || !ok2 {
-			r.Inconclusive(fmt.Sprintf("inproc %d: help not re-printed after the shell died", i))
+			r.Inconclusive(fmt.Sprintf("%s %d: help not re-printed after the shell died", eng, i))
 			return
 		}
 		shells = 1
 	}
 	sh := parseOperatorText(opText(s, 0), 0)
 	if sh.ShellBlocks != 1+shells {
-		r.Inconclusive(fmt.Sprintf("inproc %d: %d help blocks seen, %d expected", i, sh.ShellBlocks, 1+shells))
+		r.Inconclusive(fmt.Sprintf("%s %d: %d help blocks seen, %d expected", eng, i, sh.ShellBlocks, 1+shells))
 	} else {
 		r.Count("reprints_checked", int64(shells))
 	}
 	if len(sh.OneLiners) == 0 {
-		r.Inconclusive(fmt.Sprintf("inproc %d: no one-liner recognised", i))
+		r.Inconclusive(fmt.Sprintf("%s %d: no one-liner recognised", eng, i))
 		return
 	}
 	for _, f := range sh.FPs {
 		j.fp(f.Site, f.FP, strings.TrimSpace(f.Line))
 	}
-	j.ports(sh.OneLiners, bound, userWithPort(c.CBs))
+	j.ports(sh.OneLiners, newPortRule(c.CBs, bound, s.Addr))
 	mark := len(s.Log.Snapshot())
 	j.scripts(target, target, c.Tmpl == "custom", rng, 2)
 	j.handshake(target, "after.example")
+	all := sh.FPs
 	if _, okm := s.Mark(fmt.Sprintf("C05-MARK-%d-%d", i, k)); okm {
 		for _, f := range parseOperatorText(opText(s, mark), 0).FPs {
 			j.fp(siteOther, f.FP, strings.TrimSpace(f.Line))
+			all = append(all, f)
 		}
 	}
 	pin, adv = j.served[0], sh.FPs[0].FP
-	r.Distinct(fmt.Sprintf("%s|%s|%v|%s|%v|%s|%s|%s", engIn, c.Form, c.CBs, c.FDir, c.IPv6, c.Tmpl, c.Cache, pin))
+	r.Distinct(fmt.Sprintf("%s|%s|%v|%s|%v|%s|%s|%s", eng, c.Form, c.CBs, c.FDir, c.IPv6, c.Tmpl, c.Cache, pin))
+	if k == c.ChangeAt && cache != "" {
+		// the cache changes under the running listener
+		mark2 := len(s.Log.Snapshot())
+		var okc bool
+		replaced, okc = j.afterCacheChange(cache, hosts, bound, target, all, c.Tmpl == "custom", rng, func(j2 *judge) {
+			if _, okm := s.Mark(fmt.Sprintf("C05-MARK2-%d-%d", i, k)); okm {
+				for _, f := range parseOperatorText(opText(s, mark2), 0).FPs {
+					j2.fp(siteOther, f.FP, strings.TrimSpace(f.Line))
+				}
+			}
+		})
+		if okc {
+			r.Eval(1) // the changed cache under the same listener is judged as a case of its own
+			r.Distinct(fmt.Sprintf("%s|%s|%v|%s|%v|%s|%s|%s|changed-to|%s", eng, c.Form, c.CBs, c.FDir, c.IPv6, c.Tmpl, c.Cache, pin, replaced))
+		}
+	}
 	if k == 0 {
 		var printed []string
 		for _, ol := range sh.OneLiners {
 			printed = append(printed, ol.Site+": "+ol.Text)
 		}
-		r.Sample("inproc:"+c.Cache, map[string]any{"index": i, "config": c, "listening_on": s.Addr, "served_pins": j.served, "printed": printed})
+		kind := eng + ":" + c.Cache
+		r.Sample(kind, map[string]any{"index": i, "config": c, "listening_on": s.Addr, "served_pins": j.served, "printed": printed})
 	}
-	return pin, adv, true
+	return pin, adv, replaced, true
+}
+
+// ---- engine "inproc-race": two listeners started together on one empty cache ---------------
+
+const raceAttempts = 5
+
+// raceCaseRun starts two servers at the same moment on one cache path that
+// does not exist yet: both find no file, both make a key, one file wins.  Each
+// server's advertised fingerprint must be the pin of the key IT presents,
+// without and with SNI.  Up to raceAttempts attempts (fresh path each) until
+// the two servers really made different keys.
+func raceCaseRun(r *mon.Run, fx fixtures, i int) {
+	rng := r.Rng("inracerun", i)
+	cfgRng := r.Rng("inracecfg", i)
+	mk := func(form string) inCase {
+		return inCase{Form: form, CBs: cbAddrs(cbForms[cfgRng.IntN(len(cbForms))], cfgRng), FDir: fdirForms[cfgRng.IntN(len(fdirForms))], IPv6: cfgRng.IntN(2) == 0,
+			Tmpl: []string{"default", "default", "custom"}[cfgRng.IntN(3)], Cache: "shared-empty", Starts: 1, ChangeAt: -1}
+	}
+	cs := [2]inCase{mk([]string{"v4-port0", "v6-port0"}[i%2]), mk([]string{"v4-port0", "v6-port0", "any4-port0"}[i%3])}
+	for a := 0; a < raceAttempts; a++ {
+		cache := filepath.Join(r.Work, fmt.Sprintf("race%d", i), fmt.Sprintf("a%d", a), "cert.txtar")
+		var srv [2]*hk.Server
+		var oks [2]bool
+		gate := make(chan struct{})
+		var wg sync.WaitGroup
+		for n := 0; n < 2; n++ {
+			wg.Add(1)
+			go func(n int) {
+				defer wg.Done()
+				<-gate
+				// both address forms are port 0: nothing is drawn from a shared PRNG here
+				srv[n], oks[n] = inStart(r, engRace, i, cs[n], cache, fx, nil)
+			}(n)
+		}
+		close(gate)
+		wg.Wait()
+		if !oks[0] || !oks[1] {
+			for n := 0; n < 2; n++ {
+				if oks[n] {
+					srv[n].Stop()
+				}
+			}
+			r.Inconclusive(fmt.Sprintf("%s %d: the two servers did not both start", engRace, i))
+			return
+		}
+		r.Count("race_pairs_started", 1)
+		var pins, advs [2]string
+		good := true
+		for n := 0; n < 2; n++ {
+			var okn bool
+			pins[n], advs[n], _, okn = inOne(r, engRace, srv[n], i, n, cs[n], cache, rng)
+			good = good && okn
+		}
+		filePin := ""
+		if good {
+			r.Eval(2)
+			// which key the file ended up with (read by the harness; tells the two outcomes apart)
+			if crt, err := sstls.LoadCachedCertificate(cache); err == nil && crt.Leaf != nil {
+				filePin = hk.Pin(crt.Leaf)
+			}
+		}
+		for n := 0; n < 2; n++ {
+			srv[n].Stop()
+		}
+		if !good {
+			return
+		}
+		differ := advs[0] != advs[1] || pins[0] != pins[1]
+		if differ {
+			r.Count("race_pairs_with_different_keys", 1)
+			switch filePin {
+			case pins[0], pins[1]:
+				r.Count("race_cache_file_holds_one_of_the_two_keys", 1)
+			default:
+				r.Count("race_cache_file_unreadable_or_other", 1)
+			}
+		} else {
+			r.Count("race_pairs_with_one_key", 1)
+		}
+		r.Sample("inproc-race", map[string]any{"index": i, "attempt": a, "configs": cs, "served": pins, "advertised": advs, "cache_file_holds": filePin})
+		if differ {
+			return
+		}
+	}
 }
 
 // ---- Run ----------------------------------------------------------------------------------------
 
 func Run(r *mon.Run) {
-	r.Rule = "engine binary: the real -race binary on a pty, configurations drawn from listen form {127.0.0.1:0, 127.0.0.1, [::1]:0, ::1, 0.0.0.0:0, :0, [::]:0, fixed free port v4/v6} (stratified over the index) x -callback-address {none, host, host:port, several} x -serve-files-from {off, dir, file} x -ipv6-one-liners x template {default, custom with two uses of .PubkeyFP} x certificate cache {off, fresh file, file of an earlier run, 2-4 restarts on one file, default path under a private HOME}; for every run the bound port is read from the child's listening socket (/proc/<pid>/fd inode in /proc/<pid>/net/tcp{,6}), the served leaf is taken from TLS handshakes (with and without SNI, on every printed address that is an address of the listener) and hk.Pin computed by the harness; every sha256//... text on the terminal (file one-liners, shell one-liners, the help re-printed after a fake shell died) and in 2-3 /c bodies (Host, c2 query, c2 header, HTTP/1.0+SNI variants) must equal it and be std-base64 of 32 bytes; every printed one-liner must name the bound port unless that exact address was given by the user with a port; real /usr/bin/curl is run with each printed command verbatim (must exit 0; 200 for /c) and with one bit of the pin flipped (must exit 90), directly when the printed address belongs to the listener, else with --connect-to; restarts on one cache must serve and advertise one pin; in about half of the runs one printed shell one-liner that names an address of the listener is run verbatim under /bin/sh (real curl fetches /c, the script's two curl commands carry a real shell, 'exit' ends it) and the help printed afterwards is judged too. engine inproc: hsrv.New in-process, same text/handshake/script/port/restart oracles without curl. distinct = configuration signature + served pin; all non-trivial (each has at least one advertised fingerprint compared with a handshake)"
+	r.Rule = "engine binary: the real -race binary on a pty, configurations drawn from listen form {127.0.0.1:0, 127.0.0.1, [::1]:0, ::1, 0.0.0.0:0, :0, [::]:0, fixed free port v4/v6} (stratified over the index) x -callback-address {none, host, host:port, several} x -serve-files-from {off, dir, file} x -ipv6-one-liners x template {default, custom with two uses of .PubkeyFP} x certificate cache {off, fresh file, file of an earlier run, 2-4 restarts on one file, default path under a private HOME}; for every run the bound port is read from the child's listening socket (/proc/<pid>/fd inode in /proc/<pid>/net/tcp{,6}), the served leaf is taken from TLS handshakes (with and without SNI, on every printed address that is an address of the listener) and hk.Pin computed by the harness; every sha256//... text on the terminal (file one-liners, shell one-liners, the help re-printed after a fake shell died) and in 2-3 /c bodies (Host, c2 query, c2 header, HTTP/1.0+SNI variants) must equal it and be std-base64 of 32 bytes; every printed one-liner must name the bound port (a one-liner without a port names 443) or a port the user gave for that host, and a host the user gave only WITH a port (not an address of this machine) must keep exactly that port; real /usr/bin/curl is run with each printed command verbatim (must exit 0; 200 for /c) and with one bit of the pin flipped (must exit 90), directly when the printed address belongs to the listener, else with --connect-to; restarts on one cache must serve and advertise one pin; in about half of the runs one printed shell one-liner that names an address of the listener is run verbatim under /bin/sh (real curl fetches /c, the script's two curl commands carry a real shell, 'exit' ends it) and the help printed afterwards is judged too. engine inproc: hsrv.New in-process, same text/handshake/script/port/restart oracles without curl. THE CACHE CHANGES UNDER A RUNNING LISTENER (every inproc case with a cache file, in one start of its restart sequence drawn per case; every binary case with a cache file, in its last run): after the start-up checks the cache file is replaced through sstls.SaveCertificate by a harness-made currently-valid certificate with another key, then fresh handshakes without SNI (every address) and with SNI (two names), /c fetched plainly and as HTTP/1.0 on an SNI connection (binary: also real curl run as printed on a one-liner that names a host, i.e. with SNI): every fingerprint the process has shown so far and embeds now must equal the pin of every key presented now (key class cache-changed-under-listener); the starts after the replacement must serve and advertise the replaced cache's key. engine inproc-race: two servers started at the same moment (one gate) on one cache path that does not exist yet, up to 5 attempts until they really made different keys; each one's fingerprints must be the pin of what IT presents without and with SNI. PORT 443 (engines inproc-443 and binary-443; the harness is root): the listener is bound to 127.0.0.1:443 | 127.0.0.2:443 | 127.0.0.3:443 | [::1]:443 (first one free, rotation by index; one such listener at a time per run, other processes' use = next candidate / bounded wait, none available = counted + inconclusive note) x callback addresses with explicit ports 8888/8443/444/443 and without (fixed list, in turn) x files x cache (with the cache change); same oracles. distinct = configuration signature + served pin; all non-trivial (each has at least one advertised fingerprint compared with a handshake)"
 	r.Assumptions = []string{
 		"callback host names (cb.example ...) do not resolve here: their one-liners are exercised with curl --connect-to, which checks the same pin against the same listener",
 		"link-local IPv6 one-liners carry no zone and cannot be connected to directly; same treatment",
 		"a listen form the program refuses at start-up is counted and skipped (not this property's business)",
 		"exit status of the binary after Ctrl+D other than 0 is reported as inconclusive (C20 owns it)",
+		"a one-liner printed without a port (https://host/...) names the default https port 443: on a listener bound to 443 it is accepted like https://host:443/...",
+		"after the cache file changed under a running listener the listener may keep its key or adopt the new one; only 'advertised == presented' is demanded (for what was printed before the change too: the operator still uses those lines)",
+		"port 443 on the loopback addresses is free or only briefly taken by other runs of this check; if it cannot be bound at all the port-443 floors make the run inconclusive",
 	}
 	fx := makeFixtures(r.Work)
 
@@ -1128,9 +1662,22 @@ func Run(r *mon.Run) {
 				if !r.Want(engBin, i) {
 					return
 				}
-				binCaseRun(r, bin, fx, i, genBinCase(r, i, offF, offC))
+				binCaseRun(r, engBin, bin, fx, i, genBinCase(r, i, offF, offC))
 			})
 			r.Logf("binary engine done: %d runs", r.Counter("binary_runs"))
+		}
+	}
+	if r.WantEngine(engBin443) {
+		bin, err := crs.Build(r.Work, "")
+		if err != nil {
+			r.Inconclusive("cannot build the binary: " + err.Error())
+		} else {
+			for i := 0; i < r.N(2, 8); i++ {
+				if r.Want(engBin443, i) {
+					binCaseRun(r, engBin443, bin, fx, i, genBin443Case(r, i))
+				}
+			}
+			r.Logf("binary-443 engine done: %d listeners on port 443", r.Counter("binary_listeners_on_port_443"))
 		}
 	}
 	if r.WantEngine(engIn) {
@@ -1139,7 +1686,22 @@ func Run(r *mon.Run) {
 			if !r.Want(engIn, i) {
 				return
 			}
-			inCaseRun(r, fx, i, genInCase(r, i))
+			inCaseRun(r, engIn, fx, i, genInCase(r, i))
+		})
+	}
+	if r.WantEngine(engIn443) {
+		// port 443 is used by one listener at a time (mu443); two workers overlap the rest
+		mon.Parallel(r.N(12, 64), 2, func(i int) {
+			if r.Want(engIn443, i) {
+				inCaseRun(r, engIn443, fx, i, gen443Case(r, i))
+			}
+		})
+	}
+	if r.WantEngine(engRace) {
+		mon.Parallel(r.N(6, 40), 4, func(i int) {
+			if r.Want(engRace, i) {
+				raceCaseRun(r, fx, i)
+			}
 		})
 	}
 
@@ -1151,6 +1713,28 @@ func Run(r *mon.Run) {
 	}
 	r.Floor("binary_runs", q(16, 200))
 	r.Floor("inproc_servers", q(60, 500))
+	// the cache changes under a running listener
+	r.Floor("cache_changed_under_listener_cases", q(40, 350))
+	r.Floor("handshakes_with_sni_after_change", q(80, 700))
+	r.Floor("handshakes_without_sni_after_change", q(40, 350))
+	r.Floor("handshakes_with_sni_at_start", q(60, 500))
+	r.Floor("fingerprints_compared:"+classChanged, q(300, 3000))
+	r.Floor("restarts_after_cache_replacement", q(6, 100))
+	r.Floor("race_pairs_started", q(6, 40))
+	r.Floor("race_pairs_with_different_keys", q(2, 12))
+	// the listener on the default https port
+	if r.Counter("listeners_on_port_443") == 0 && r.Counter("port_443_unavailable") > 0 {
+		// nothing in this environment may listen on port 443 (not root, or
+		// all candidate addresses are taken for the whole run): the
+		// dimension is reported as not explored instead of failing the run
+		r.Assumptions = append(r.Assumptions, "port 443 could not be bound on any candidate address in this environment: the listener-on-the-default-https-port cases were NOT explored in this run")
+		r.Extra("port_443_dimension_explored", false)
+	} else {
+		r.Floor("listeners_on_port_443", q(8, 40))
+		r.Floor("oneliners_with_user_port_on_443_listener", q(20, 100))
+		r.Floor("oneliners_with_user_port_other_than_443_on_443_listener", q(20, 100))
+		r.Floor("oneliners_naming_bound_port_on_443_listener", q(20, 100))
+	}
 	r.Floor("handshakes", q(150, 1500))
 	r.Floor("bound_port_from_proc", q(16, 200))
 	r.Floor("curl_pinned_ok", q(20, 300))
@@ -1171,12 +1755,25 @@ func Run(r *mon.Run) {
 // writeDatedCache writes a certificate cache whose certificate is either
 // expired or not yet valid and returns the pin of its key.
 func writeDatedCache(path string, expired bool) (string, error) {
+	if expired {
+		return writeCache(path, "expired")
+	}
+	return writeCache(path, "notyet")
+}
+
+// writeCache writes a certificate cache with a key pair made by the harness
+// and returns the pin of its key.  kind: "valid" (valid now, for ten years),
+// "expired", "notyet".
+func writeCache(path, kind string) (string, error) {
 	priv, err := ecdsa.GenerateKey(elliptic.P256(), crand.Reader)
 	if err != nil {
 		return "", err
 	}
-	nb, na := time.Now().AddDate(-3, 0, 0), time.Now().AddDate(-1, 0, 0)
-	if !expired {
+	nb, na := time.Now().Add(-time.Minute), time.Now().AddDate(10, 0, 0)
+	switch kind {
+	case "expired":
+		nb, na = time.Now().AddDate(-3, 0, 0), time.Now().AddDate(-1, 0, 0)
+	case "notyet":
 		nb, na = time.Now().AddDate(1, 0, 0), time.Now().AddDate(5, 0, 0)
 	}
 	tmpl := x509.Certificate{SerialNumber: big.NewInt(time.Now().UnixNano()), Subject: pkix.Name{CommonName: "sstls"}, NotBefore: nb, NotAfter: na,
